@@ -17,6 +17,7 @@ arg   = [0, labels] Name | [1, labels] str name | [2, rds] Rdataset | [3, labels
 rds   = [rdtype, covers, ttl, [[body, aux]...], rdclass]
 obs   = per txn [ [op results...], [len(zone.nodes), [node or None per probe]] ]
 """
+import base64
 import itertools
 import os
 
@@ -89,6 +90,16 @@ def mk_rdata(ty, cov, body, aux, cls=1):
         text = f"{dns.rdatatype.to_text(aux)} 8 2 300 20300101000000 20000101000000 {body} example. AAAA"
     elif ty == NSEC:
         text = f"n{body}.example. A"
+    elif ty == SIG:
+        text = f"{dns.rdatatype.to_text(aux)} 8 2 300 20300101000000 20000101000000 {body} example. AAAA"
+    elif ty == DNAME:
+        text = f"d{body}.example."
+    elif ty == KEY:
+        text = "256 3 8 " + base64.b64encode(bytes([body & 255])).decode()
+    elif ty == NSEC3:
+        text = "1 0 1 - " + "0" * 31 + "0123456789abcdefghijklmnopqrstuv"[body & 31] + " A"
+    elif ty == NXT:
+        text = f"\\# 1 {body & 255:02x}"
     else:
         raise ValueError(f"no rdata builder for type {ty}")
     rd = dns.rdata.from_text(cls, ty, text)
@@ -115,6 +126,16 @@ def decode_rdata(rd):
         return [rd.key_tag, int(rd.type_covered)]
     if ty == NSEC:
         return [int(rd.next.labels[0][1:]), 0]
+    if ty == SIG:
+        return [rd.key_tag, int(rd.type_covered)]
+    if ty == DNAME:
+        return [int(rd.target.labels[0][1:]), 0]
+    if ty == KEY:
+        return [rd.key[0], 0]
+    if ty == NSEC3:
+        return [rd.next[-1] & 31, 0]
+    if ty == NXT:
+        return [rd.data[0], 0]
     raise ValueError(f"no rdata decoder for type {ty}")
 
 
@@ -660,7 +681,7 @@ def oracle(ctx, kind, case, out):
 
 ORIGINS = [[b"example", b""], [b"example", b""], [b"example", b""], [b"Ex", b"ORG", b""], [b""]]
 RELS = [[], [b"www"], [b"a"], [b"b", b"a"], [b"WWW"], [b"mail"]]
-TYPES = [A, A, TXT, CNAME, NSEC, MX, NS, RRSIG, SOA]
+TYPES = [A, A, A, TXT, TXT, CNAME, CNAME, NSEC, MX, NS, RRSIG, RRSIG, SOA, SOA, DNAME, KEY, NXT, NSEC3, SIG]
 TTLS = [0, 1, 300, 300, 3600, 2**31 - 1, MAX_TTL]
 SERIALS = [0, 1, 5, 2**31 - 1, 2**31, 2**31 + 1, 2**32 - 2, 2**32 - 1]
 
@@ -708,12 +729,12 @@ class Gen:
         if n is None:
             n = rng.choice([1, 1, 1, 2, 3]) if ty not in SINGLETONS else 1
         ids = rng.sample(range(1, 6), n)
-        aux = cov if ty == RRSIG else (rng.choice(SERIALS) if ty == SOA else 0)
+        aux = cov if ty in (RRSIG, SIG) else (rng.choice(SERIALS) if ty == SOA else 0)
         return [[i, aux] for i in ids]
 
     def tc(self):
         ty = self.rng.choice(TYPES)
-        cov = self.rng.choice([A, CNAME, NSEC, TXT]) if ty == RRSIG else 0
+        cov = self.rng.choice([A, A, CNAME, CNAME, NSEC, TXT, KEY, NSEC3]) if ty in (RRSIG, SIG) else 0
         return ty, cov
 
     def rds(self, ty, cov, items=None, empty=0.03, badclass=0.02):
